@@ -11,6 +11,7 @@ PROP = dict(
                dict(fn=S + "delete_bucket", rt_skip=True),
                dict(fn=S + "get_metadata", rt_skip=True),
                dict(fn=S + "buckets", rt_skip=True),
+               dict(fn=S + "update_bucket", rt_skip=True),
                dict(fn=D + "Datastore.buckets", rt_skip=True),
                dict(fn=D + "Datastore.__getitem__", rt_skip=True),
                dict(fn=D + "Datastore.create_bucket", rt_skip=True),
@@ -19,12 +20,13 @@ PROP = dict(
                dict(fn=S + "commit", rt_skip=True),
                dict(fn=MS + "create_bucket", rt_skip=True),
                dict(fn=MS + "delete_bucket", rt_skip=True),
-               dict(fn=MS + "get_metadata", rt_skip=True)],
+               dict(fn=MS + "get_metadata", rt_skip=True),
+               dict(fn=MS + "update_bucket", rt_skip=True)],
     timeout_s=20,
     extra=[lambda run: run.storage_histories("C05")],
     technique="run-time refinement check of the real back ends against a reference list over random histories (bounded); "
               "with the sqlite methods proved against contracts over the table state (SQL text parsed from the source)",
-    explanation="deductive (sqlite): create_bucket adds exactly one bucket row (row id never used before) with exactly the metadata given, empty, durable on return, and raises IntegrityError leaving everything unchanged if the id exists; delete_bucket removes the row and all of its events and nothing else, durable on return, ValueError if absent; get_metadata / buckets() describe exactly the live rows. update_bucket builds its SQL dynamically and is covered by the bounded check only. Datastore (sqlite configuration): the handle cache satisfies cache_inv (every cached handle is the handle of an existing bucket, filed under its own id) before and after every method; __getitem__ returns the handle of an existing bucket and raises KeyError exactly when the bucket does not exist; create_bucket / delete_bucket carry the storage postconditions and keep the cache consistent (a deleted bucket's handle is dropped, so re-creation starts from the database). deductive (memory): create_bucket adds an empty list and a fresh metadata dict with exactly the values given (name defaulting to the id), leaving every other bucket's list and metadata object in place; delete_bucket removes both entries, or raises ValueError and changes nothing; get_metadata returns a fresh equal copy. " 
+    explanation="deductive (sqlite): create_bucket adds exactly one bucket row (row id never used before) with exactly the metadata given, empty, durable on return, and raises IntegrityError leaving everything unchanged if the id exists; delete_bucket removes the row and all of its events and nothing else, durable on return, ValueError if absent; get_metadata / buckets() describe exactly the live rows. update_bucket assembles its SQL text from the fields supplied: it is proved by cases on which of its five Optional parameters are given (32 cases, in each of which the text is a constant that is parsed like any other): only the fields supplied change, only in the addressed bucket row, and the change is durable on return; with nothing supplied, or for a missing bucket, it raises ValueError and changes nothing. Datastore (sqlite configuration): the handle cache satisfies cache_inv (every cached handle is the handle of an existing bucket, filed under its own id) before and after every method; __getitem__ returns the handle of an existing bucket and raises KeyError exactly when the bucket does not exist; create_bucket / delete_bucket carry the storage postconditions and keep the cache consistent (a deleted bucket's handle is dropped, so re-creation starts from the database). deductive (memory): create_bucket adds an empty list and a fresh metadata dict with exactly the values given (name defaulting to the id), leaving every other bucket's list and metadata object in place; delete_bucket removes both entries, or raises ValueError and changes nothing; get_metadata returns a fresh equal copy. " 
                 "bounded: random histories of bucket create / update / delete / re-create mixed with event writes and lookups of missing buckets (KeyError for lookup, ValueError for describe/update/delete, nothing changed) on the three back ends against the reference map.",
 )
 
@@ -32,6 +34,9 @@ F = "/repo/aw_datastore/storages/sqlite.py"
 FD = "/repo/aw_datastore/datastore.py"
 FM = "/repo/aw_datastore/storages/memory.py"
 MUTANTS = [
+    (F, '            + " WHERE id = ?"', '            + " WHERE id >= ?"', True),                       # update_bucket rewrites later buckets too
+    (F, '            ("hostname", hostname),\n', '            ("hostname", client),\n', True),      # hostname set from client
+    (F, '        self.conn.execute(sql, (*values, bucket_id))\n        self.commit()\n        return self.get_metadata(bucket_id)', '        self.conn.execute(sql, (*values, bucket_id))\n        return self.get_metadata(bucket_id)', True),   # update not durable on return
     (FM, '        if bucket_id in self.db:\n            del self.db[bucket_id]\n', '', True),   # events survive delete_bucket
     (FM, '        if not name:\n            name = bucket_id\n', '', True),   # name not defaulted
     (FD, '        if bucket_id in self.bucket_instances:\n            del self.bucket_instances[bucket_id]\n        return self.storage_strategy.delete_bucket(bucket_id)', '        return self.storage_strategy.delete_bucket(bucket_id)', True),   # stale handle survives delete_bucket
@@ -40,4 +45,7 @@ MUTANTS = [
     (F, 'cursor = self.conn.execute("DELETE FROM buckets WHERE id = ?", [bucket_id])', 'cursor = self.conn.execute("DELETE FROM buckets WHERE id >= ?", [bucket_id])', True),   # delete_bucket removes later buckets
     (F, '        if cursor.rowcount != 1:\n            raise ValueError("Bucket did not exist, could not delete")', '        if cursor.rowcount > 1:\n            raise ValueError("Bucket did not exist, could not delete")', True),   # deleting a missing bucket succeeds
     (F, '                "hostname": row[4],\n                "created": row[5],\n                "data": json.loads(row[6] or "{}"),\n            }\n        return buckets', '                "hostname": row[3],\n                "created": row[5],\n                "data": json.loads(row[6] or "{}"),\n            }\n        return buckets', True),   # listing shows client as hostname
+    (FM, '            if data is not None:\n                self._metadata[bucket_id]["data"] = data', '            if data:\n                self._metadata[bucket_id]["data"] = data', True),   # reverts 15a9dd8: an empty data dict is ignored
+    (FM, '            if hostname:\n                self._metadata[bucket_id]["hostname"] = hostname', '            if hostname:\n                self._metadata[bucket_id]["hostname"] = client', True),   # memory: hostname set from client
+    (FM, '            if name:\n                self._metadata[bucket_id]["name"] = name\n', '            if name:\n                self._metadata[bucket_id]["name"] = name\n            self._metadata[bucket_id]["created"] = ""\n', True),   # memory: update clobbers a field not supplied
 ]
